@@ -12,7 +12,10 @@ import (
 	"context"
 	"crypto/ecdsa"
 	"crypto/elliptic"
+	"crypto/hmac"
 	crand "crypto/rand"
+	"crypto/sha256"
+	"encoding/base64"
 	"encoding/json"
 	"errors"
 	"fmt"
@@ -26,6 +29,7 @@ import (
 	"sort"
 	"strings"
 	"sync"
+	"time"
 
 	"github.com/go-jose/go-jose/v4"
 	"github.com/luikyv/go-oidc/pkg/goidc"
@@ -275,7 +279,32 @@ type DOp struct {
 	Hook    Hook
 	Secret  Handle `json:",omitempty"`
 	Basic   bool   `json:",omitempty"`
+	Ep      string `json:",omitempty"` // UseAt: token introspect revoke
+	Sm      string `json:",omitempty"` // UseAt: post basic jwt
 	Why     string `json:",omitempty"` // what the generator meant (not part of the model input)
+}
+
+var c12EpCoq = map[string]string{"token": "EpToken", "introspect": "EpIntrospect", "revoke": "EpRevoke"}
+var c12SmCoq = map[string]string{"post": "SmPost", "basic": "SmBasic", "jwt": "SmJwt"}
+var c12EpPath = map[string]string{"token": "/token", "introspect": "/introspect", "revoke": "/revoke"}
+
+// the operation as a Model/DcrUse.v xop
+func (o DOp) xcoq() string {
+	if o.Kind == "UseAt" {
+		return fmt.Sprintf("XUse %s %s %s %s", c12EpCoq[o.Ep], c12SmCoq[o.Sm], cN(o.Cid), cN(o.Secret))
+	}
+	return "XBase (" + o.coq() + ")"
+}
+
+// a client_secret_jwt assertion keyed with `secret` (hand-made, so that any string can be the key)
+func c12SecretJWT(cid, secret, jti string) string {
+	enc := base64.RawURLEncoding.EncodeToString
+	now := time.Now().Unix()
+	p, _ := json.Marshal(map[string]any{"iss": cid, "sub": cid, "aud": issuer, "jti": jti, "iat": now, "exp": now + 120})
+	si := enc([]byte(`{"alg":"HS256","typ":"JWT"}`)) + "." + enc(p)
+	mac := hmac.New(sha256.New, []byte(secret))
+	mac.Write([]byte(si))
+	return si + "." + enc(mac.Sum(nil))
 }
 
 func (o DOp) body() string {
@@ -350,6 +379,7 @@ type c12World struct {
 	step    int
 	hook    Hook
 	nmal    int
+	njti    int
 }
 
 func newC12World(srv c12Srv, flavour string) (*c12World, error) {
@@ -744,6 +774,27 @@ func (w *c12World) exec(o DOp) (obs DObs) {
 		if o.Basic {
 			req.SetBasicAuth(w.concrete(o.Cid), w.concrete(o.Secret))
 		}
+	case "UseAt":
+		form := url.Values{}
+		if o.Ep == "token" {
+			form.Set("grant_type", "client_credentials")
+		} else {
+			form.Set("token", "no-such-token")
+		}
+		switch o.Sm {
+		case "post":
+			form.Set("client_id", w.concrete(o.Cid))
+			form.Set("client_secret", w.concrete(o.Secret))
+		case "jwt":
+			w.njti++
+			form.Set("client_assertion_type", "urn:ietf:params:oauth:client-assertion-type:jwt-bearer")
+			form.Set("client_assertion", c12SecretJWT(w.concrete(o.Cid), w.concrete(o.Secret), fmt.Sprintf("jti-%d-%d", w.step, w.njti)))
+		}
+		req = httptest.NewRequest("POST", c12EpPath[o.Ep], strings.NewReader(form.Encode()))
+		req.Header.Set("Content-Type", "application/x-www-form-urlencoded")
+		if o.Sm == "basic" {
+			req.SetBasicAuth(w.concrete(o.Cid), w.concrete(o.Secret))
+		}
 	}
 	rec := httptest.NewRecorder()
 	func() {
@@ -759,11 +810,14 @@ func (w *c12World) exec(o DOp) (obs DObs) {
 	}
 	st := rec.Code
 	raw := rec.Body.Bytes()
-	if o.Kind == "UseSecret" {
+	if o.Kind == "UseSecret" || (o.Kind == "UseAt" && o.Ep == "token") {
 		var m map[string]any
 		_ = json.Unmarshal(raw, &m)
 		_, ok := m["access_token"].(string)
 		return DObs{Kind: "Tok", Status: st, OK: st == 200 && ok}
+	}
+	if o.Kind == "UseAt" {
+		return DObs{Kind: "Tok", Status: st, OK: st == 200}
 	}
 	switch {
 	case st == 204:
@@ -1076,7 +1130,26 @@ func (g *c12Gen) validDoc() []Member {
 		}
 	}
 	if s.AuthDetails && r.Intn(4) == 0 {
-		d = append(d, Member{"authorization_data_types", jArr(pick(r, s.AuthDetailTypes))})
+		// one enabled type, or several of them in any order
+		l := []string{pick(r, s.AuthDetailTypes)}
+		for _, t := range s.AuthDetailTypes {
+			if r.Intn(2) == 0 && !has(l, t) {
+				if r.Intn(2) == 0 {
+					l = append(l, t)
+				} else {
+					l = append([]string{t}, l...)
+				}
+			}
+		}
+		d = append(d, Member{"authorization_data_types", jArr(l...)})
+	}
+	// methods of its own for the introspection / revocation endpoints (those that need no further members)
+	simple := []string{"client_secret_post", "client_secret_basic", "client_secret_jwt", "none"}
+	if im := inter(simple, s.IntroMethods); s.Introspection && len(im) > 0 && r.Intn(3) == 0 {
+		d = append(d, Member{"introspection_endpoint_auth_method", jStr(pick(r, im))})
+	}
+	if rm := inter(simple, s.RevocMethods); s.Revocation && len(rm) > 0 && r.Intn(3) == 0 {
+		d = append(d, Member{"revocation_endpoint_auth_method", jStr(pick(r, rm))})
 	}
 	if has(s.Grants, gCiba) && method != "none" && method != "" && r.Intn(4) == 0 {
 		mode := pick(r, s.CibaModes)
@@ -1210,7 +1283,18 @@ func (g *c12Gen) deviate(d []Member) ([]Member, string) {
 	case 14:
 		return setM(d, "backchannel_authentication_request_signing_alg", jStr(other(sigUniverse, s.CibaJarAlgs))), "backchannel_authentication_request_signing_alg"
 	case 15:
-		return setM(d, "authorization_data_types", jArr(other(detailUniverse, s.AuthDetailTypes))), "authorization_data_types"
+		// a type that is not enabled: alone, or before / after / between enabled ones
+		l := []string{other(detailUniverse, s.AuthDetailTypes)}
+		for _, t := range s.AuthDetailTypes {
+			if r.Intn(2) == 0 {
+				if r.Intn(2) == 0 {
+					l = append(l, t)
+				} else {
+					l = append([]string{t}, l...)
+				}
+			}
+		}
+		return setM(d, "authorization_data_types", jArr(l...)), "authorization_data_types"
 	case 16:
 		return setM(d, "redirect_uris", jArr(redirectsOK[0], pick(r, redirectsBad))), "redirect_uris"
 	case 17:
@@ -1488,7 +1572,239 @@ func (g *c12Gen) useSecret(c *c12Client, which string) {
 		basic = !basic
 	}
 	g.do(DOp{Kind: "UseSecret", Cid: c.ID, Secret: s, Basic: basic, Why: which + " secret"})
+	if g.R.Intn(3) == 0 {
+		g.do(DOp{Kind: "UseAt", Cid: c.ID, Secret: s, Ep: pick(g.R, c12Eps), Sm: pick(g.R, c12Sms), Why: which + " secret"})
+	}
 }
+
+var c12Eps = []string{"token", "introspect", "revoke"}
+var c12Sms = []string{"post", "basic", "jwt"}
+
+// the secret used at every endpoint by every secret-based method: 3 x 3 requests
+func (g *c12Gen) useEverywhere(c *c12Client, secret Handle, why string) {
+	for _, ep := range c12Eps {
+		for _, sm := range c12Sms {
+			g.do(DOp{Kind: "UseAt", Cid: c.ID, Secret: secret, Ep: ep, Sm: sm, Why: why})
+		}
+	}
+}
+
+// the method in force at an endpoint, as clientutil.authnMethod reads it off a registration document
+func c12MethodAt(d []Member, ep string) string {
+	key := map[string]string{"introspect": "introspection_endpoint_auth_method", "revoke": "revocation_endpoint_auth_method"}[ep]
+	if key != "" {
+		if v, ok := getM(d, key); ok && v.S != "" {
+			return v.S
+		}
+	}
+	return methodOf(d)
+}
+
+// a wrong secret offered the way the endpoint expects one
+func (g *c12Gen) useWrong(c *c12Client, doc []Member, secret Handle, why string) {
+	for _, ep := range c12Eps {
+		sm := map[string]string{"client_secret_post": "post", "client_secret_basic": "basic", "client_secret_jwt": "jwt"}[c12MethodAt(doc, ep)]
+		if sm == "" {
+			sm = pick(g.R, c12Sms)
+		}
+		g.do(DOp{Kind: "UseAt", Cid: c.ID, Secret: secret, Ep: ep, Sm: sm, Why: why})
+	}
+}
+
+// ---- family "endpoints": every combination of (token, introspection, revocation) methods the server
+// offers, the returned secret used at every endpoint by every secret-based method ----
+type c12Combo struct{ T, I, R string }
+
+func c12EndpointSrv(variant int, rotation bool) c12Srv {
+	s := c12Srv{Rotation: rotation, Grants: []string{gCC, gAC}, Scopes: []string{"openid", "email"}, IdtSigAlgs: []string{"ES256"}}
+	switch variant % 4 {
+	case 0:
+		s.AuthMethods = []string{"client_secret_post", "client_secret_basic", "client_secret_jwt", "private_key_jwt"}
+		s.Introspection, s.IntroMethods = true, []string{"client_secret_post", "client_secret_basic", "client_secret_jwt"}
+		s.Revocation, s.RevocMethods = true, []string{"client_secret_post", "client_secret_basic", "client_secret_jwt"}
+	case 1:
+		s.AuthMethods = []string{"client_secret_post", "client_secret_basic"}
+		s.Introspection, s.IntroMethods = true, []string{"client_secret_jwt", "client_secret_post"}
+	case 2:
+		s.AuthMethods = []string{"client_secret_jwt", "client_secret_post"}
+		s.Revocation, s.RevocMethods = true, []string{"client_secret_basic", "client_secret_jwt"}
+	default:
+		s.AuthMethods = []string{"client_secret_post", "client_secret_basic", "client_secret_jwt", "none"}
+		s.Introspection, s.IntroMethods = true, []string{"client_secret_jwt", "none"}
+		s.Revocation, s.RevocMethods = true, []string{"client_secret_basic"}
+	}
+	return s
+}
+
+func c12Combos(s c12Srv) []c12Combo {
+	im, rm := []string{""}, []string{""}
+	if s.Introspection {
+		im = append(im, s.IntroMethods...)
+	}
+	if s.Revocation {
+		rm = append(rm, s.RevocMethods...)
+	}
+	var l []c12Combo
+	for _, t := range s.AuthMethods {
+		for _, i := range im {
+			for _, r := range rm {
+				l = append(l, c12Combo{t, i, r})
+			}
+		}
+	}
+	return l
+}
+
+func (g *c12Gen) comboDoc(c c12Combo, k int) []Member {
+	d := []Member{{"token_endpoint_auth_method", jStr(c.T)}}
+	if c.T == "none" {
+		d = append(d, Member{"grant_types", jArr(gAC)}, Member{"response_types", jArr("code")}, Member{"redirect_uris", jArr(redirectsOK[0])})
+	} else {
+		d = append(d, Member{"grant_types", jArr(gCC)})
+	}
+	if c.T == "private_key_jwt" {
+		d = append(d, Member{"jwks", jObj(1)})
+	}
+	if c.I != "" {
+		d = append(d, Member{"introspection_endpoint_auth_method", jStr(c.I)})
+	}
+	if c.R != "" {
+		d = append(d, Member{"revocation_endpoint_auth_method", jStr(c.R)})
+	}
+	// the signing algorithm spelled out, now and then; and, where an endpoint inherits the token
+	// endpoint's method, an algorithm of its own that nobody validated
+	if k%3 == 0 && c.T == "client_secret_jwt" {
+		d = append(d, Member{"token_endpoint_auth_signing_alg", jStr("HS256")})
+	}
+	if k%5 == 0 && c.I == "client_secret_jwt" {
+		d = append(d, Member{"introspection_endpoint_auth_signing_alg", jStr("HS256")})
+	}
+	if k%7 == 3 && c.I == "" {
+		d = append(d, Member{"introspection_endpoint_auth_signing_alg", jStr(pick(g.R, []string{"ES256", "HS256"}))})
+	}
+	if k%7 == 5 && c.R == "" {
+		d = append(d, Member{"revocation_endpoint_auth_signing_alg", jStr(pick(g.R, []string{"PS256", "HS256"}))})
+	}
+	d = append(d, Member{"scope", jStr("openid")})
+	return d
+}
+
+func (g *c12Gen) famEndpoints(k int) {
+	combos := c12Combos(g.srv)
+	// four combinations per history; the histories of one server variant walk through all of them
+	base := (k / 4) * 4
+	at := func(i int) c12Combo { return combos[(base+i)%len(combos)] }
+	docA, docB := g.comboDoc(at(0), k), g.comboDoc(at(1), k+1)
+	a := g.create(docA, false, Hook{}, fmt.Sprintf("A %+v", at(0)))
+	if a == nil {
+		return
+	}
+	g.useEverywhere(a, a.Secret, "the returned secret")
+	b := g.create(docB, false, Hook{}, fmt.Sprintf("B %+v", at(1)))
+	if b != nil {
+		g.useEverywhere(b, b.Secret, "the returned secret")
+		g.useWrong(b, docB, a.Secret, "another client's secret")
+		g.useWrong(a, docA, b.Secret, "another client's secret")
+	}
+	g.useWrong(a, docA, a.Tok, "the registration token as secret")
+	docA2 := g.comboDoc(at(2), k+2)
+	oldA := a.Secret
+	if x := g.update(a, g.tokOf(a, "current"), docA2, false, Hook{}, fmt.Sprintf("A becomes %+v", at(2))); x.Kind == "Doc" {
+		g.useEverywhere(a, a.Secret, "the secret returned by the update")
+		g.useWrong(a, docA2, oldA, "the secret before the update")
+		g.do(DOp{Kind: "Read", Cid: a.ID, Tok: g.tokOf(a, "current"), Why: "read back"})
+	}
+	if b != nil {
+		docB2 := g.comboDoc(at(3), k+3)
+		oldB := b.Secret
+		if x := g.update(b, g.tokOf(b, "current"), docB2, false, Hook{}, fmt.Sprintf("B becomes %+v", at(3))); x.Kind == "Doc" {
+			g.useEverywhere(b, b.Secret, "the secret returned by the update")
+			g.useWrong(b, docB2, oldB, "the secret before the update")
+		}
+		g.useEverywhere(a, a.Secret, "A's secret after B's update")
+	}
+}
+
+// ---- family "details": authorization detail types, every list over the universe up to length 3 ----
+func c12DetailLists() [][]string {
+	u := detailUniverse
+	l := [][]string{{}}
+	for _, a := range u {
+		l = append(l, []string{a})
+	}
+	for _, a := range u {
+		for _, b := range u {
+			l = append(l, []string{a, b})
+		}
+	}
+	for _, a := range u {
+		for _, b := range u {
+			for _, c := range u {
+				if a != b && b != c && a != c {
+					l = append(l, []string{a, b, c})
+				}
+			}
+		}
+	}
+	return l
+}
+
+func c12DetailSrv(variant int, rotation bool) c12Srv {
+	s := c12Srv{Rotation: rotation, Grants: []string{gCC, gAC}, Scopes: []string{"openid", "email"}, IdtSigAlgs: []string{"ES256"},
+		AuthMethods: []string{"client_secret_post", "none"}, AuthDetails: true}
+	switch variant % 4 {
+	case 0:
+		s.AuthDetailTypes = []string{"payment"}
+	case 1:
+		s.AuthDetailTypes = []string{"payment", "account"}
+	case 2:
+		s.AuthDetailTypes = []string{"api", "account"}
+	default:
+		s.AuthDetails = false // the member is then not looked at
+	}
+	return s
+}
+
+func (g *c12Gen) famDetails(k int) {
+	doc := func(l []string, name string) []Member {
+		d := []Member{{"client_name", jStr(name)}, {"token_endpoint_auth_method", jStr("none")}, {"grant_types", jArr(gAC)},
+			{"response_types", jArr("code")}, {"redirect_uris", jArr(redirectsOK[0])}, {"scope", jStr("openid")}}
+		if l != nil {
+			d = append(d, Member{"authorization_data_types", jArr(l...)})
+		}
+		return d
+	}
+	first := []string{"payment"}
+	if g.srv.AuthDetails {
+		first = g.srv.AuthDetailTypes[:1]
+	}
+	a := g.create(doc(first, "A"), false, Hook{}, "A with one enabled type")
+	if a == nil {
+		return
+	}
+	lists := c12DetailLists()
+	for i, l := range lists {
+		why := fmt.Sprintf("authorization_data_types %v against %v", l, g.srv.AuthDetailTypes)
+		switch (i + k) % 3 {
+		case 0:
+			g.create(doc(l, fmt.Sprintf("c%d", i)), false, Hook{}, why)
+		case 1:
+			if x := g.update(a, g.tokOf(a, "current"), doc(l, fmt.Sprintf("A%d", i)), false, Hook{}, why); x.Kind == "Doc" || i%4 == 1 {
+				g.do(DOp{Kind: "Read", Cid: a.ID, Tok: g.tokOf(a, "current"), Why: "read back"})
+			}
+		default:
+			// the list comes from the embedder's hook
+			hk := Hook{Kind: "set", K: "authorization_data_types", V: jArr(l...)}
+			if i%2 == 0 {
+				g.update(a, g.tokOf(a, "current"), doc(nil, fmt.Sprintf("A%d", i)), false, hk, "hook sets "+why)
+			} else {
+				g.create(doc(first, fmt.Sprintf("h%d", i)), false, hk, "hook sets "+why)
+			}
+		}
+	}
+	g.do(DOp{Kind: "Read", Cid: a.ID, Tok: g.tokOf(a, "current"), Why: "read back"})
+}
+
 
 // a registration document that leads to a client holding a secret, when the server allows one
 func (g *c12Gen) goodDoc() []Member {
@@ -1743,6 +2059,14 @@ func runC12History(seed int64, k int, fam string) c12Case {
 		rotation = k%4 != 3
 	}
 	srv := randomSrv(r, rotation)
+	switch fam {
+	case "endpoints":
+		flavour, rotation = []string{"copy", "alias"}[(k/4)%2], (k/8)%2 == 0
+		srv = c12EndpointSrv(k, rotation)
+	case "details":
+		flavour, rotation = []string{"copy", "alias"}[(k/4)%2], (k/8)%2 == 0
+		srv = c12DetailSrv(k, rotation)
+	}
 	w, err := newC12World(srv, flavour)
 	if err != nil {
 		panic(fmt.Sprintf("provider.New refused a generated feature set: %v (%+v)", err, srv))
@@ -1759,6 +2083,10 @@ func runC12History(seed int64, k int, fam string) c12Case {
 		g.famCaps(k)
 	case "hook":
 		g.famHook(k)
+	case "endpoints":
+		g.famEndpoints(k)
+	case "details":
+		g.famDetails(k)
 	default:
 		g.famRandom(k)
 	}
@@ -1768,14 +2096,27 @@ func runC12History(seed int64, k int, fam string) c12Case {
 	return c12Case{Note: fmt.Sprintf("%s#%d/%s/rotation=%v", fam, k, flavour, rotation), Flavour: flavour, Spec: srv, Ops: g.ops, Obs: g.obs, dist: g.dist}
 }
 
-func (c c12Case) coq() string {
+func (c c12Case) coq() string { return c.render(false) }
+
+// the case with Model/DcrUse.v operations
+func (c c12Case) xcoq() string { return c.render(true) }
+
+func (c c12Case) render(x bool) string {
 	var b strings.Builder
-	b.WriteString("mkDCase " + c.Spec.coq() + "\n  [")
+	if x {
+		b.WriteString("mkXCase " + c.Spec.coq() + "\n  [")
+	} else {
+		b.WriteString("mkDCase " + c.Spec.coq() + "\n  [")
+	}
 	for i, o := range c.Ops {
 		if i > 0 {
 			b.WriteString(";\n   ")
 		}
-		b.WriteString(o.coq())
+		if x {
+			b.WriteString(o.xcoq())
+		} else {
+			b.WriteString(o.coq())
+		}
 	}
 	b.WriteString("]\n  [")
 	for i, o := range c.Obs {
@@ -1788,8 +2129,8 @@ func (c c12Case) coq() string {
 	return b.String()
 }
 
-const c12Header = `From Verif Require Import Base Types Dcr.
-From Verif.Corr Require Import C12.
+const c12Header = `From Verif Require Import Base Types Dcr DcrUse.
+From Verif.Corr Require Import C12 C12Use.
 Local Open Scope N_scope.
 `
 
@@ -1812,6 +2153,8 @@ func init() {
 		add("caps", ctx.N(56, 800))
 		add("hook", ctx.N(12, 200))
 		add("random", ctx.N(24, 500))
+		add("endpoints", ctx.N(64, 256))
+		add("details", ctx.N(16, 64))
 		cases := make([]c12Case, len(jobs))
 		var wg sync.WaitGroup
 		sem := make(chan struct{}, 12)
@@ -1826,7 +2169,7 @@ func init() {
 		}
 		wg.Wait()
 
-		per := 60
+		per := 24
 		seen := map[string]bool{}
 		var jcases []map[string]any
 		for k := 0; k*per < len(cases); k++ {
@@ -1838,12 +2181,12 @@ func init() {
 			b.WriteString(c12Header)
 			var names []string
 			for i, cs := range cases[k*per : hi] {
-				fmt.Fprintf(&b, "(*CASE %d %s*)\nDefinition c_%d : dcase :=\n%s.\n", k*per+i, cs.Note, k*per+i, cs.coq())
+				fmt.Fprintf(&b, "(*CASE %d %s*)\nDefinition c_%d : xcase :=\n%s.\n", k*per+i, cs.Note, k*per+i, cs.xcoq())
 				names = append(names, fmt.Sprintf("c_%d", k*per+i))
 			}
-			b.WriteString("Definition cases : list dcase := [" + strings.Join(names, "; ") + "].\n")
-			b.WriteString("Definition corr := Eval vm_compute in map check_dcr_case cases.\nPrint corr.\n")
-			b.WriteString("Definition mon := Eval vm_compute in map mon_dcr_case cases.\nPrint mon.\n")
+			b.WriteString("Definition cases : list xcase := [" + strings.Join(names, "; ") + "].\n")
+			b.WriteString("Definition corr := Eval vm_compute in map check_xcase cases.\nPrint corr.\n")
+			b.WriteString("Definition mon := Eval vm_compute in map mon_xcase cases.\nPrint mon.\n")
 			name := fmt.Sprintf("cases_%03d.v", k)
 			if err := os.WriteFile(filepath.Join(ctx.Out, name), []byte(b.String()), 0o644); err != nil {
 				panic(err)
@@ -1858,7 +2201,7 @@ func init() {
 			okN, errN := 0, 0
 			var sb strings.Builder
 			for j, o := range cs.Obs {
-				sb.WriteString(cs.Ops[j].coq() + "=>" + o.Kind + o.Code + ";")
+				sb.WriteString(cs.Ops[j].xcoq() + "=>" + o.Kind + o.Code + ";")
 				if o.accepted() {
 					okN++
 				} else {
@@ -1873,7 +2216,7 @@ func init() {
 				var ops []string
 				for j, o := range cs.Ops {
 					if j < 8 {
-						ops = append(ops, o.coq()+"  ==>  "+truncate(cs.Obs[j].coq(), 300))
+						ops = append(ops, o.xcoq()+"  ==>  "+truncate(cs.Obs[j].coq(), 300))
 					}
 				}
 				ctx.Meta.Samples = append(ctx.Meta.Samples, map[string]any{"note": cs.Note, "server": cs.Spec.coq(), "first_ops": ops})
